@@ -35,12 +35,14 @@ func plan(prop, tier string) []Part {
 			{Name: "mixed", N: q(tier, 600, 12000), Chunk: 40, Procs: []int{2, 16, 4, 1}, Timeout: to},
 			{Name: "nq", N: q(tier, 400, 8000), Chunk: 40, Procs: []int{2, 16, 4, 1}, Timeout: to},
 			{Name: "big", N: q(tier, 16, 200), Chunk: 4, Procs: []int{4, 16}, Timeout: to},
+			{Name: "err", N: q(tier, 200, 4000), Chunk: 40, Procs: []int{2, 16, 4, 1}, Timeout: to},
 		}
 		return ps
 	case "C02":
 		return []Part{
 			{Name: "mixed", N: q(tier, 600, 12000), Chunk: 40, Procs: []int{2, 16, 4, 1}, Timeout: to},
 			{Name: "nq", N: q(tier, 400, 8000), Chunk: 40, Procs: []int{2, 16, 4, 1}, Timeout: to},
+			{Name: "err", N: q(tier, 200, 4000), Chunk: 40, Procs: []int{2, 16, 4, 1}, Timeout: to},
 		}
 	case "C03", "C13", "C14", "C16":
 		return []Part{{Name: "mixed", N: q(tier, 800, 16000), Chunk: 40, Procs: []int{2, 16, 4, 1}, Timeout: to}}
